@@ -28,12 +28,34 @@ HOOKS = ['on_create', 'on_run', 'on_running', 'on_exit_running', 'on_wait', 'on_
          'on_output_emitting', 'on_output_emitted']
 
 
+class SamplingWaiting(ps.Waiting):
+    """A waiting state of the process's own (``get_state_classes``): what it does while the process waits is part of the step."""
+
+    async def execute(self):
+        sample(self.process, 'step', 'waiting-state:entry')
+        result = await super().execute()
+        sample(self.process, 'step', 'waiting-state:woken')
+        return result
+
+
 class CurProc(plumpy.Process):
     @classmethod
     def define(cls, spec):
         super().define(spec)
         spec.inputs.dynamic = True
         spec.outputs.dynamic = True
+
+    @classmethod
+    def get_state_classes(cls):
+        states = super().get_state_classes()
+        states[plumpy.ProcessState.WAITING] = SamplingWaiting
+        return states
+
+    def __len__(self):
+        # a process that is also a container of what it has collected so far: with script option 'falsy' it is empty (and so
+        # falsy) all along -- which process is current has nothing to do with truth values
+        raw = getattr(self, '_raw_inputs', None)
+        return 0 if raw is not None and raw['script'].get('falsy') else 1
 
     def __init__(self, *args, **kwargs):
         super().__init__(*args, **kwargs)
